@@ -203,7 +203,7 @@ def main():
         sys.exit(2)
     level = getattr(mod, 'LEVEL', 'exploration')
     try:
-        path = core.write_evidence(prop, a.tier, seed, level, merged, wall)
+        path = core.write_evidence(prop, a.tier, seed, level, merged, wall, strict=not merged['violations'])
     except core.HarnessError as e:
         print(f"HARNESS-ERROR {e}")
         sys.exit(2)
